@@ -157,23 +157,108 @@ def _run_one(prog):
     import torch
     torch.set_num_threads(1)
     from .c06_hist import HOOK, run_program
+    import signal
+
+    class _Timeout(Exception):
+        pass
+
+    def _alarm(*_a):
+        raise _Timeout()
     h0 = HOOK.hits
     t = time.time()
+    old = signal.signal(signal.SIGALRM, _alarm)
+    signal.alarm(120)
     try:
         r = run_program(prog)
+    except _Timeout:
+        HOOK.on = False
+        return {"prog": prog, "steps": [], "fails": [("machinery:timeout", 0, {"err": "history did not finish within 120 s"},
+                                                      {"cause": "none", "explained": False, "label": "timeout"})],
+                "nfails": 1, "reads": 0, "hits": 0, "events": [], "wall": time.time() - t}
     except Exception as e:  # noqa: BLE001
         import traceback
         return {"crash": traceback.format_exc()[-1500:], "prog": prog}
+    finally:
+        signal.alarm(0)
+        signal.signal(signal.SIGALRM, old)
     return {"prog": prog, "steps": r.steps, "fails": [(l, s, d, g) for (l, s, d, g) in r.fail][:40], "nfails": len(r.fail), "reads": r.nreads,
             "hits": HOOK.hits - h0, "events": sorted(r.observed_event_kinds), "wall": time.time() - t}
 
 
-def _pool_map(fn, jobs, procs):
+_FLAGS = None
+
+
+def _init_worker(flags):
+    global _FLAGS
+    import resource
+    _FLAGS = flags
+    try:
+        resource.setrlimit(resource.RLIMIT_AS, (12 * 2 ** 30, 12 * 2 ** 30))   # a runaway allocation becomes a MemoryError
+    except Exception:  # noqa: BLE001
+        pass
+
+
+def _guard(fn, i, job, hard_timeout):
+    import faulthandler
+    if _FLAGS is not None:
+        _FLAGS[i] = 1
+    faulthandler.dump_traceback_later(hard_timeout, exit=True)   # a call stuck inside the library ends the worker
+    try:
+        return fn(job)
+    finally:
+        faulthandler.cancel_dump_traceback_later()
+        if _FLAGS is not None:
+            _FLAGS[i] = 2
+
+
+def _lost(job, why):
+    return {"prog": job, "steps": [], "impl": [], "line": None, "lost": why,
+            "fails": [("machinery:history-did-not-finish", 0, {"err": why}, {"cause": "none", "explained": False, "label": "did-not-finish"})],
+            "nfails": 1, "reads": 0, "hits": 0, "events": [], "wall": 0.0}
+
+
+def _pool_map(fn, jobs, procs, hard_timeout=150):
+    """map over a fork pool that survives a worker killed by a hang / runaway allocation inside the code under test:
+    the histories that were running when a worker died are re-run one by one; one that kills its worker again is reported"""
+    from concurrent.futures import ProcessPoolExecutor
+    from concurrent.futures.process import BrokenProcessPool
     if procs <= 1 or len(jobs) < 4:
         return [fn(j) for j in jobs]
     ctx = mp.get_context("fork")
-    with ctx.Pool(procs) as pool:
-        return pool.map(fn, jobs, chunksize=max(1, len(jobs) // (procs * 4)))
+    results = [None] * len(jobs)
+    pending = list(range(len(jobs)))
+    rounds = 0
+    while pending and rounds < 6:
+        rounds += 1
+        flags = ctx.Array("b", len(jobs), lock=False)
+        ex = ProcessPoolExecutor(max_workers=procs, mp_context=ctx, initializer=_init_worker, initargs=(flags,))
+        futs = {i: ex.submit(_guard, fn, i, jobs[i], hard_timeout) for i in pending}
+        broken = False
+        for i in pending:
+            try:
+                results[i] = futs[i].result()
+            except BrokenProcessPool:
+                broken = True
+            except MemoryError:
+                results[i] = _lost(jobs[i], "MemoryError in the worker")
+        ex.shutdown(wait=False, cancel_futures=True)
+        if not broken:
+            break
+        suspects = [i for i in pending if results[i] is None and flags[i] == 1]
+        for i in suspects:   # alone, so that the culprit is identified
+            ex1 = ProcessPoolExecutor(max_workers=1, mp_context=ctx, initializer=_init_worker, initargs=(None,))
+            try:
+                results[i] = ex1.submit(_guard, fn, i, jobs[i], min(hard_timeout, 60)).result()
+            except BrokenProcessPool:
+                results[i] = _lost(jobs[i], "the worker died or the history did not finish within the time limit")
+            except MemoryError:
+                results[i] = _lost(jobs[i], "MemoryError in the worker")
+            ex1.shutdown(wait=False, cancel_futures=True)
+        pending = [i for i in pending if results[i] is None]
+    for i in pending:
+        if results[i] is None:
+            results[i] = _lost(jobs[i], "not executed: the worker pool kept breaking")
+    return results
 
 
 def short(detail):
